@@ -13,7 +13,7 @@ Tot(S, k)  == IF Has(S.eacct, k) THEN S.eacct[k].balance + S.eacct[k].transferre
 Got(S, l)  == IF Has(S.epay, l) THEN S.epay[l].balance + S.epay[l].withdrawn ELSE 0
 Wd(S, l)   == IF Has(S.epay, l) THEN S.epay[l].withdrawn ELSE 0
 KeeperActs == {"KAccountCreate", "KDeposit", "KSettle", "KAccountClose", "KPaymentCreate", "KPaymentWithdraw", "KPaymentClose"}
-IsTx(R)    == R.act.act \notin ({"NextBlock"} \cup KeeperActs)
+IsTx(R)    == R.act.act \notin ({"NextBlock", "GenesisRoundTrip"} \cup KeeperActs)
 ActDid(a)  == DId(a.t, a.d)
 DeploymentActs == {"CreateDeployment", "DepositDeployment", "UpdateDeployment", "CloseDeployment", "CloseGroup",
                    "PauseGroup", "StartGroup", "CreateBid", "CloseBid", "WithdrawLease", "CreateLease", "CloseLease"}
